@@ -1,7 +1,7 @@
 // Package txkit builds signed thor transactions from small templates.  It is shared by the block production /
 // block rule drivers (C01, C02): a transaction is  Build(env, originKey, opt, clauses...)  where the clauses come from
 // the helpers below (VET / VTHO transfer, executor calls to the Authority and Params built-ins, Staker calls, a clause
-// that always reverts) and Opt selects the envelope: legacy or dynamic-fee (typed), VIP-191 delegated, dependent
+// that always reverts, a clause that makes the runtime abort) and Opt selects the envelope: legacy or dynamic-fee (typed), VIP-191 delegated, dependent
 // (DependsOn), explicit gas / expiration / block ref.
 //
 // Nothing here reads a chain: the caller supplies the chain tag, the block ref and (after GALACTICA) the base fee
@@ -164,4 +164,16 @@ func StakerSetBeneficiary(validator, beneficiary thor.Address) *tx.Clause {
 // so a transaction containing it is reverted as a whole: no state change besides the gas payment, no events, no transfers.
 func Reverting() *tx.Clause {
 	return AuthorityAdd(thor.Address{}, thor.Address{}, thor.Bytes32{})
+}
+
+// Aborting is a contract creation whose init code STATICCALLs Energy.transfer: a built-in state-changing method invoked
+// in a read-only frame makes the runtime abort the whole transaction with an execution error (not a revert).  The packer
+// must skip such a transaction and leave no trace of it in the state; a validator never sees it.
+func Aborting() *tx.Clause {
+	code := []byte{0x63, 0xa9, 0x05, 0x9c, 0xbb, 0x60, 0xe0, 0x1b, 0x60, 0x00, 0x52} // mem[0..4) = selector of transfer(address,uint256)
+	code = append(code, 0x60, 0x01, 0x60, 0x24, 0x52)                                // amount = 1 (a zero amount touches nothing)
+	code = append(code, 0x60, 0x00, 0x60, 0x00, 0x60, 0x44, 0x60, 0x00, 0x73)        // retSize retOff argsSize argsOff PUSH20
+	code = append(code, builtin.Energy.Address.Bytes()...)
+	code = append(code, 0x5a, 0xfa, 0x00) // GAS STATICCALL STOP
+	return tx.NewClause(nil).WithData(code)
 }
